@@ -343,6 +343,11 @@ fn render_doc(paras: &[Entries], comments: bool, rng: &mut Rng) -> String {
 
 /// the E column: every (key, value) the readers see in the text whose key is an external-codec field
 /// of one of the kind's structs
+/// the E column for a document kind by name (used by the C02 `total` requests of the typed readers)
+pub fn ext_column_kind(kind: &str, text: &str) -> Option<String> {
+    KINDS.iter().find(|k| k.kind == kind).map(|ks| ext_column(ks, text))
+}
+
 fn ext_column(ks: &KindSpec, text: &str) -> String {
     let mut seen: Vec<(String, String)> = vec![];
     if let Ok(d) = deb822_lossless::Deb822::from_str(text) {
